@@ -15,10 +15,18 @@ CLAIMED = {
     "C16": dict(
         category="proof", technique=TECH, design="DESIGN.md §4 C16",
         text="Row-major bijection onto [0,size), in-bounds, and the aliasing theorems for partial-index views, first-axis slices, reshape "
-             "(incl. the inferred -1) and index-gather are proved in Lean 4 for every rank and shape about a model of dims.h/tensor.h; the model "
-             "is tied to the headers by an exhaustive-small + random correspondence run with an independent naive-indexing oracle. integral / "
-             "the summed-area table = naive prefix sums for every rank, remove_if's two-pointer loop = filter, the lexicographic-order = offset-order law and the matrix / vector stack placement are proved too (33 theorems); storage conversions are covered by the correspondence and the oracle only.",
-        note=NOTE_COMMON + "Eigen maps and storage conversions are observed only through data()/size()/operator(); memory safety by the ASan flavour of the thorough tier (testing)."),
+             "(incl. the inferred -1) and index-gather are proved in Lean 4 for every rank and shape about a model of dims.h/tensor.h; integral / "
+             "the summed-area table = naive prefix sums for every rank (also with a narrower input scalar type), remove_if's two-pointer loop = filter (also over packs of tensors), the "
+             "lexicographic-order = offset-order law, the matrix / vector stack placement, views assigned / written through / gathered into re-used outputs are proved too. The three storages of "
+             "storage.h (owning, map, const map) are modelled as an explicit heap (buffers with identity, offset, length; every constructor, copy, move, assignment, both resize overloads, raw maps, "
+             "assignment from an Eigen expression) with histories of operations over numbered slots: a conversion / assignment preserves the element sequence, views alias exactly their index set "
+             "(exact cell frame), copies are independent in both directions, t = t.slice(..) yields the elements before the assignment, resize keeps / loses contents exactly as coded, no "
+             "operation reads or writes outside the buffer it addresses, and for every history every owner holds null or the start of a live allocation that no other owner holds; what map = map "
+             "does when the ranges overlap the unsupported way is stated as coded with kernel-checked witnesses; range.h, make_dims / cat_dims, arange / full / make_* (153 theorems). The model "
+             "is tied to the headers by an exhaustive-small + random correspondence run (exact integer comparison, ranks 1..5, zero-sized dims) incl. 3000 op histories per run over the three storages, with an "
+             "independent naive-indexing / cell-aliasing python oracle.",
+        note=NOTE_COMMON + "Eigen's DenseStorage semantics are read from the Eigen 3.4 sources and encoded in the model; reductions (min / max / sum / ...), lin_spaced in general and the Eigen-expression accessors are not "
+             "modelled (the statement does not mention them); memory safety by the ASan flavour of the thorough tier (testing)."),
     "C20": dict(
         category="proof", technique=TECH_GEN, design="DESIGN.md §4 C20",
         text="Percentile/median position rule, the unsorted variant = sorted variant for any sort meeting the contract, the histogram bins as a "
